@@ -266,7 +266,7 @@ class Lib:
             return r
         full = (module + "." + orig) if module else orig
         short = {"itertools.groupby": "itertools.groupby", "itertools.permutations": "itertools.permutations",
-                 "autograd.jacobian": "autograd.jacobian", "autograd.hessian": "autograd.hessian"}.get(full, full)
+                 "autograd.jacobian": "autograd.jacobian", "autograd.hessian": "autograd.hessian", "autograd.grad": "autograd.grad"}.get(full, full)
         if short in self.fn:
             return LibFn(short)
         if self.is_module(short):
